@@ -728,6 +728,25 @@ def list_shapes(ctx, f, bindings: Optional[Dict[str, object]] = None, depth: int
     return results
 
 
+def module_constant(ctx, m, name: str, depth: int = 0) -> Optional[ast.Constant]:
+    """The literal a module-level name is bound to (exactly one assignment; also through an import or another constant)."""
+    if depth > 4 or m is None:
+        return None
+    if name in m.assigns:
+        sts = m.assigns[name]
+        v = assigned_value(sts[0], name) if len(sts) == 1 else None
+        if isinstance(v, ast.Constant):
+            return v
+        if isinstance(v, ast.Name):
+            return module_constant(ctx, m, v.id, depth + 1)
+        return None
+    if name in m.imports:
+        src, sym = m.imports[name]
+        if sym is not None and sym != "*":
+            return module_constant(ctx, ctx.repo.modules.get(src), sym, depth + 1)
+    return None
+
+
 class _ListInterp:
     def __init__(self, ctx, f, depth, prefix):
         self.ctx, self.f, self.depth, self.prefix = ctx, f, depth, prefix
@@ -783,6 +802,9 @@ class _ListInterp:
             if e.id in s.store:
                 v = s.store[e.id]
                 return [(s, v if v is not None else self.fresh(e, e.id))]
+            c = module_constant(self.ctx, self.f.module, e.id)      # a named module-level literal
+            if c is not None:
+                return [(s, Scalar(repr(c.value), c.value, True))]
             return [(s, Scalar(self.prefix + e.id))]
         if isinstance(e, ast.Attribute):
             return [(s, Scalar(ast.unparse(e)))]
